@@ -223,10 +223,17 @@ def _run(ix, R):
             fl = mkflow(ix, site)
             vs = [e for e in calls(fl, 'vstack')]
             v = one(vs, 'vstack')
+            # the four datasets are identified by the key they are read with, not by the local they land in
             env = {}
             for e in fl.of('assign'):
-                env[e.name] = e.value
-            wn, sp_, no, ww = [env.get(n) for n in names]
+                if isinstance(e.value, RF):
+                    t_ = fmt(fl, e.value)
+                    for k_ in ('instrument_wngrid', 'instrument_spectrum', 'instrument_noise', 'instrument_wnwidth'):
+                        if "'%s'" % k_ in t_ and not any("'%s'" % o in t_ for o in (
+                                'instrument_wngrid', 'instrument_spectrum', 'instrument_noise', 'instrument_wnwidth') if o != k_):
+                            env.setdefault(k_, e.value)
+            wn, sp_, no, ww = [env.get(n) for n in ('instrument_wngrid', 'instrument_spectrum', 'instrument_noise',
+                                                    'instrument_wnwidth')]
             if None in (wn, sp_, no, ww):
                 raise AnalysisError('columns not found')
             want = fl.tab.atom('tuple', (10000 / wn, sp_, no, spec(fl, 'wnwidth_to_wlwidth(a, b)', {'a': wn, 'b': ww})))
